@@ -36,13 +36,15 @@ static pthread_barrier_t barrier;
 static int nthreads = 1;
 static int prettyFlag = 0, multiFlag = 0;
 static int failed = 0;
+static const char* modName = "m";
+static char hdrName[300] = "m.h";
 
 static void* work(void* arg) {
     size_t j = (size_t)arg;
     size_t i;
     pthread_barrier_wait(&barrier);
     for (i = j; i < ids.length; i += (size_t)nthreads) {
-        if (!wasmCWriteImplementationFile(reader.module, "m", "m.h", NULL, 's', (U32)i, 1, (U32)i, ids,
+        if (!wasmCWriteImplementationFile(reader.module, modName, hdrName, NULL, 's', (U32)i, 1, (U32)i, ids,
                                           prettyFlag != 0, false, multiFlag != 0)) {
             failed = 1;
         }
@@ -57,6 +59,7 @@ int main(int argc, char** argv) {
     if (argc < 5) { fprintf(stderr, "usage: harness module.wasm T pretty multi\n"); return 2; }
     nthreads = atoi(argv[2]); prettyFlag = atoi(argv[3]); multiFlag = atoi(argv[4]);
     if (nthreads < 1 || nthreads > 64) return 2;
+    if (argc > 5 && strlen(argv[5]) < 200) { modName = argv[5]; sprintf(hdrName, "%s.h", modName); }
     reader = empty;
     if (!readWasmBinary(argv[1], &reader, false)) return 3;
     ids = wasmSortedFunctionIDs(reader.module->functions);
@@ -103,8 +106,8 @@ def parse_reports(stderr):
     return out
 
 
-def run(exe, workdir, tag, wasm, threads, pretty=False, multi=False, timeout=300):
-    """-> {rc, reports, files {s%010u.c: bytes}}"""
+def run(exe, workdir, tag, wasm, threads, pretty=False, multi=False, timeout=300, name="m"):
+    """-> {rc, reports, files {s%010u.c: bytes}}; `name` = module name as w2c2 derives it from the file name (m.wasm -> m)"""
     d = os.path.join(workdir, "ws_" + tag)
     shutil.rmtree(d, ignore_errors=True)
     os.makedirs(d)
@@ -112,7 +115,7 @@ def run(exe, workdir, tag, wasm, threads, pretty=False, multi=False, timeout=300
     env = dict(os.environ)
     env["TSAN_OPTIONS"] = "halt_on_error=0:report_signal_unsafe=0:exitcode=0:history_size=4"
     try:
-        p = subprocess.run([exe, "m.wasm", str(threads), "1" if pretty else "0", "1" if multi else "0"], cwd=d,
+        p = subprocess.run([exe, "m.wasm", str(threads), "1" if pretty else "0", "1" if multi else "0", name], cwd=d,
                            stdout=subprocess.PIPE, stderr=subprocess.PIPE, env=env, timeout=timeout)
         rc, err = p.returncode, p.stderr.decode("latin-1")
     except subprocess.TimeoutExpired:
